@@ -536,6 +536,16 @@ class ServerTls(Server):
                                         )
 
 
+    def close(self):
+        """
+        Close all sockets including those of connections still handshaking
+        """
+        super(ServerTls, self).close()
+        for cx in self.cxes.values():  # pending handshake remoters
+            cx.close()
+        self.cxes.clear()
+
+
     def serviceAxes(self):
         """
         Service accepteds
